@@ -238,6 +238,37 @@ Definition dist_leaf_racy (h : header) : res :=
   loop (fun n m => gen_dist_exhausted (lagging_view n) m) gen_dist_incr gen_dist_requeues
        h (Val 0, []) (fuel_of h) 0 0.
 
+(* ------------------------------------------------------------------ options and parallelized lists
+   The interpreters take a task's declared header at face value and let the distributed group run EVERY member
+   with exactly its own arguments.  Three facts of the source carry that, each generated from the code:
+   * a direct task is registered with the options its decorator was given: gen_direct_option (declared, app-level)
+     is what Pynenc.direct_task hands to self.task after filtering its option dict;
+   * distribute_batch_calls routes gen_batch_count n b batches of b calls, batch k starting at k*b: `routed`
+     is the number of the n calls that reach the orchestrator;
+   * prepare_arguments merges each call's parameters over a fresh copy of common_args. *)
+Definition direct_header (app : nat) (h : header) : header :=
+  mkH (nid h) (gen_direct_option (maxr h) app) (rfor h) (base h) (script h) (dflt h).
+
+Definition routed (n b : nat) : nat := Nat.min n (gen_batch_count n b * b).
+
+(* keyword arguments as (key, value) lists; update = per-call parameters over the base *)
+Fixpoint kw_set (k v : nat) (d : list (nat * nat)) : list (nat * nat) :=
+  match d with
+  | [] => [(k, v)]
+  | (k', v') :: r => if Nat.eqb k k' then (k, v) :: r else (k', v') :: kw_set k v r
+  end.
+Definition kw_update (d p : list (nat * nat)) : list (nat * nat) :=
+  fold_left (fun acc kv => kw_set (fst kv) (snd kv) acc) p d.
+(* what the calls of one parallelized list receive: fresh copy per call, or one dict updated in place *)
+Fixpoint merged_calls (fresh : bool) (cur common : list (nat * nat)) (calls : list (list (nat * nat)))
+  : list (list (nat * nat)) :=
+  match calls with
+  | [] => []
+  | p :: r => let m := kw_update (if fresh then common else cur) p in m :: merged_calls fresh m common r
+  end.
+Definition received_kwargs (common : list (nat * nat)) (calls : list (list (nat * nat))) :=
+  merged_calls gen_common_args_fresh_per_call common common calls.
+
 (* ------------------------------------------------------------------ helpers for the harness *)
 (* serialiser oracle instance measured on the implementation: kinds whose arguments are dropped *)
 Definition tr_drop (kinds : list nat) (e : exn) : exn :=
